@@ -25,7 +25,7 @@ RULE = (
     "Non-trivial: >= 2 boundary curves or a curved boundary, and two different transformation types."
 )
 MANDATORY = ["move", "scale", "rotate", "rotate-degrees", "anisotropic", "rational-exact", "kind:connected", "kind:disjoint",
-             "unbounded", "curved", "inverse"]
+             "unbounded", "curved", "inverse", "move-by-own-vertex"]
 
 
 def model_step(curves, step):
@@ -184,6 +184,28 @@ def judge(ctx, case):
             if badt:
                 ctx.violation("transform", "rational-became-float", case, "%s step %d %r: %r" % (phase, n, step, badt[:2]), step["k"])
                 return
+    # a shape built from the caller's own Point2D objects, translated by one of
+    # them: the vector must not change under the caller's feet and every vertex
+    # moves by its original value
+    if not curved and spec["k"] == "simple":
+        try:
+            with call_limit(60):
+                verts0 = [seg[0] for seg in curves0[0]]
+                objs = [Sp.Point2D(v[0], v[1]) for v in verts0]
+                poly = Sp.Primitive.polygon(objs)
+                vec = objs[case["us"] and int(case["us"][0] * len(objs)) % len(objs)]
+                v0 = (lib.num(vec[0]), lib.num(vec[1]))
+                poly.move(vec)
+                after_vec = (lib.num(vec[0]), lib.num(vec[1]))
+                gotv = [(lib.num(q[0]), lib.num(q[1])) for q in poly.jordans[0].vertices]
+                wantv = [(v[0] + v0[0], v[1] + v0[1]) for v in verts0]
+                ctx.count("stratum:move-by-own-vertex")
+                if after_vec != v0:
+                    ctx.violation("transform", "move-changed-the-callers-vector", case, "vector %r became %r" % (v0, after_vec), "move")
+                elif any(abs(float(a[0]) - float(b[0])) > 1e-9 * size or abs(float(a[1]) - float(b[1])) > 1e-9 * size for a, b in zip(gotv, wantv)):
+                    ctx.violation("transform", "move-by-own-vertex", case, "vertices %r, expected %r" % (gotv[:4], wantv[:4]), "move")
+        except BaseException as exc:
+            ctx.violation("transform", "raised-in-move-by-own-vertex", case, repr(exc), innermost_shapepy_frame(exc))
     # observations after the full forward sequence are made on a second object
     # that was asked the same questions before being transformed
     try:
